@@ -591,6 +591,12 @@ func evalC18(sc *c18Scenario, obs *c18Obs, rc *ruleCtx) {
 								healthy := urlContactable(urls[j]) && (x.Fault.Kind == FNone || x.Fault.Kind == FRedirect)
 								down := !urlContactable(urls[j]) || x.Fault.Kind == FConnErr || x.Fault.Kind == FStatus || x.Fault.Kind == FEmpty || x.Fault.Kind == FTruncate || x.Fault.Kind == FBodyErr || x.Fault.Kind == FGarbage || x.Fault.Kind == FLyingCL
 								if healthy {
+									if x.Rec.Begun && j != firstIdx && x.Rec.Outcome == "ctx_done" && (sc.Timeout == 0 || x.Rec.TReturn.Sub(x.Rec.TBegin) < sc.Timeout) {
+										// nobody cancelled the caller's context and no client timeout
+										// fired, yet the request to this location was aborted: the library
+										// itself gave up on a location that was about to answer
+										rc.fail("C18.F3", "earlier_healthy_location_aborted", fmt.Sprintf("%s: the delta was taken from location %d although location %d, advertised before it, was healthy; the library aborted its request after %s", tag, firstIdx, j, x.Rec.TReturn.Sub(x.Rec.TBegin)))
+									}
 									if !x.Rec.Begun && j != firstIdx {
 										rc.fail("C18.F3", "earlier_healthy_location_never_asked", fmt.Sprintf("%s: the delta was taken from location %d although location %d, advertised before it and healthy, was never asked", tag, firstIdx, j))
 									}
